@@ -17,7 +17,7 @@ import (
 	"verifextract/ex"
 )
 
-func main() { ex.Main([]string{"SurfaceFacts.lean"}, gen) }
+func main() { ex.Main([]string{"SurfaceFacts.lean", "SurfaceBodies.lean"}, gen) }
 
 type renamer map[string]string
 
@@ -216,6 +216,7 @@ var required = []struct{ name, typ string }{
 }
 
 func gen(c *ex.Ctx) {
+	genBodies(c) // round 4 (bodies.go): Gen/SurfaceBodies.lean
 	var sb strings.Builder
 	sb.WriteString("namespace VaxisModel.Gen.SurfaceFacts\n\n")
 	genBody(c, &sb)
